@@ -10,6 +10,6 @@ trap "git -C /repo worktree remove --force $WT >/dev/null 2>&1; rm -rf $WT /tmp/
 git -C $WT apply "$P" || { echo "patch does not apply"; exit 2; }
 export REPO_DIR=$WT GOSX_EVIDENCE_DIR=/tmp/try_evidence_$$
 for c in "$@"; do
-  timeout 1200 ./check $c quick > /tmp/try_$c.log 2>&1; rc=$?
-  echo "$c exit=$rc: $(grep -c '^VIOLATION' /tmp/try_$c.log) violations; $(grep '^VIOLATION' -A2 /tmp/try_$c.log | head -6 | tr '\n' ' ' | cut -c1-400)"
+  timeout 1200 ./check $c quick > /tmp/try_${TRY_TAG}$c.log 2>&1; rc=$?
+  echo "$c exit=$rc: $(grep -c '^VIOLATION' /tmp/try_${TRY_TAG}$c.log) violations; $(grep '^VIOLATION' -A2 /tmp/try_${TRY_TAG}$c.log | head -6 | tr '\n' ' ' | cut -c1-400)"
 done
